@@ -33,6 +33,9 @@ type C18Case struct {
 	Info103    bool   `json:"info_103,omitempty"`
 	ReqAccess  bool   `json:"req_body_access"`
 	RespAccess bool   `json:"resp_body_access"`
+	// CtlRespAccess: response body access is configured Off and switched on for the transaction by a rule of this
+	// phase (1-3) with ctl:responseBodyAccess=On; 0: no such rule
+	CtlRespAccess int `json:"ctl_resp_body_access,omitempty"`
 	ReqLimit   int    `json:"req_limit"`
 	ReqAction  string `json:"req_limit_action"`
 	RespLimit  int    `json:"resp_limit"`
@@ -71,6 +74,9 @@ func genC18(t *rapid.T) *C18Case {
 	}
 	c.ReqAccess = rapid.Bool().Draw(t, "reqaccess")
 	c.RespAccess = rapid.Bool().Draw(t, "respaccess")
+	if !c.RespAccess && rapid.IntRange(0, 2).Draw(t, "ctlrespaccess") == 0 {
+		c.CtlRespAccess = rapid.IntRange(1, 3).Draw(t, "ctlrespphase")
+	}
 	c.ReqLimit = rapid.IntRange(4, 40).Draw(t, "reqlimit")
 	c.ReqAction = rapid.SampledFrom([]string{"Reject", "ProcessPartial"}).Draw(t, "reqaction")
 	c.RespLimit = rapid.IntRange(4, 40).Draw(t, "resplimit")
@@ -129,6 +135,9 @@ func (c *C18Case) conf() string {
 	}
 	if c.RespAccess {
 		sb.WriteString("SecResponseBodyAccess On\nSecResponseBodyMimeType text/plain\n")
+	}
+	if c.CtlRespAccess > 0 {
+		fmt.Fprintf(&sb, "SecResponseBodyMimeType text/plain\nSecAction \"id:5,phase:%d,pass,nolog,ctl:responseBodyAccess=On\"\n", c.CtlRespAccess)
 	}
 	if c.After == "tmpclean" {
 		sb.WriteString("SecRequestBodyInMemoryLimit 4\n")
@@ -446,7 +455,10 @@ func checkC18(c *C18Case) Result {
 		return out
 	}
 	// ---- response phases
-	processable := c.RespAccess && c.CType == "text/plain"
+	processable := (c.RespAccess || c.CtlRespAccess > 0) && c.CType == "text/plain"
+	if c.CtlRespAccess > 0 {
+		out.Labels = append(out.Labels, "response-body-access-switched-on-by-ctl")
+	}
 	total := len(r.handlerWrote)
 	code := c.Code
 	if code == 0 {
